@@ -45,4 +45,13 @@ def hfilter (m : List (List α × β)) (p : List α) : List (List α × β) :=
 def hprepend (m : List (List α × β)) (h : List α) : List (List α × β) :=
   m.map (fun e => (h ++ e.1, e.2))
 
+/-- one `BTreeMap::insert`: the value of an existing key is replaced -/
+def hinsert (m : List (List α × β)) (k : List α) (v : β) : List (List α × β) :=
+  if m.any (fun e => e.1 == k) then m.map (fun e => if e.1 == k then (k, v) else e) else m ++ [(k, v)]
+
+/-- `Extend::extend` and `With::with` (a `BTreeMap::append`): the new bindings, in order, replace the old ones —
+what `VisitedQueryRelations::new` uses to let the CTEs of a query shadow the tables of the context -/
+def hextend (m n : List (List α × β)) : List (List α × β) :=
+  n.foldl (fun acc e => hinsert acc e.1 e.2) m
+
 end Qrlew
